@@ -13,7 +13,7 @@ Section ApplyProofs.
   Notation root := (root digest).
   Notation db := (db digest).
   Notation apply := (apply digest digest_eqb root_of).
-  Notation has_root := (has_root digest digest_eqb).
+  Notation has_root := (has_root digest digest_eqb root_of).
   Notation open_root := (open_root digest digest_eqb root_of).
   Notation root_eqb := (root_eqb digest digest_eqb).
   Notation follows := (follows digest).
@@ -35,7 +35,8 @@ Section ApplyProofs.
   Lemma has_root_app d r m r' :
     has_root (d ++ [(r, m)]) r' = has_root d r' || root_eqb r r'.
   Proof.
-    unfold Model.has_root. rewrite existsb_app. cbn [existsb fst]. rewrite orb_false_r. reflexivity.
+    unfold Model.has_root. rewrite existsb_app. cbn [existsb fst]. rewrite orb_false_r.
+    rewrite orb_assoc. reflexivity.
   Qed.
 
   (* every stored root is the digest of the contents stored under it *)
@@ -198,7 +199,7 @@ Example ex_apply :
 Proof. vm_compute. reflexivity. Qed.
 
 Example ex_hyps :
-  follows kvmap (ex_root 6 []) (ex_root 5 ex_old) = true /\
-  has_root kvmap kvmap_eqb [(ex_root 5 ex_old, ex_old)] (ex_root 6 []) = false /\
+  follows kvmap (ex_root 6 [([7], [])]) (ex_root 5 ex_old) = true /\
+  has_root kvmap kvmap_eqb (fun m => m) [(ex_root 5 ex_old, ex_old)] (ex_root 6 [([7], [])]) = false /\
   open_root kvmap kvmap_eqb (fun m => m) [(ex_root 5 ex_old, ex_old)] (ex_root 5 ex_old) = Some ex_old.
 Proof. vm_compute. repeat split. Qed.
